@@ -126,6 +126,9 @@ pub struct RResult {
     pub holdings: Vec<RHolding>,
     pub traces: BTreeMap<String, Vec<DayTrace>>,
     pub has_adjustments: bool,
+    /// some share count that exact evaluation needs (a position, a unit factor between a sale and a purchase in its
+    /// 30-day window, a purchase expressed in the sale's units) has no finite decimal expansion
+    pub non_decimal_share_count: bool,
 }
 impl RResult {
     pub fn covered(&self) -> bool {
@@ -197,10 +200,6 @@ pub fn evaluate(txs: &[RTx]) -> RResult {
             tr.push(DayTrace { date: dates[i], pos_start, pos_end: pos.clone(), pool_start: (Rat::zero(), Rat::zero()) });
             pos = &pos * &dv[i].ratio;
         }
-        if uncovered_here {
-            res.traces.insert(tk.to_string(), tr);
-            continue;
-        }
         // unit factor between day i and day j>i : product of ratios of days i..j-1
         let u = |i: usize, j: usize| -> Rat {
             let mut r = Rat::one();
@@ -209,6 +208,35 @@ pub fn evaluate(txs: &[RTx]) -> RResult {
             }
             r
         };
+        // share counts without a finite decimal expansion (independent of coverage)
+        for t in &tr {
+            if !t.pos_start.is_finite_decimal() || !t.pos_end.is_finite_decimal() {
+                res.non_decimal_share_count = true;
+            }
+        }
+        if !pos.is_finite_decimal() {
+            res.non_decimal_share_count = true;
+        }
+        for i in 0..n {
+            if !dv[i].s.is_pos() {
+                continue;
+            }
+            for j in (i + 1)..n {
+                if (dates[j] - dates[i]).num_days() > 30 {
+                    break;
+                }
+                if dv[j].b.is_pos() {
+                    let f = u(i, j);
+                    if !f.is_finite_decimal() || !(&dv[j].b / &f).is_finite_decimal() || !(Rat::one() / &f).is_finite_decimal() {
+                        res.non_decimal_share_count = true;
+                    }
+                }
+            }
+        }
+        if uncovered_here {
+            res.traces.insert(tk.to_string(), tr);
+            continue;
+        }
         let sd: Vec<Rat> = (0..n).map(|i| dv[i].s.clone().min(dv[i].b.clone())).collect();
         let mut claimed: Vec<Rat> = vec![Rat::zero(); n];
         let mut legs: Vec<Vec<RLeg>> = vec![Vec::new(); n];
